@@ -210,3 +210,33 @@ Lemma sim_shaped_fine :
   Forall (fun kv => let a := advertised kv in
             Forall (fun h => play a (enforced_spec a default_config) h = Fine) (sim_shaped a)) advenf_all_specs.
 Proof. unfold advenf_all_specs. repeat constructor. Qed.
+
+(** The record, field by field. The list of a Chrome parrot as typed parameters (integer-valued ones). *)
+Definition tparams_of (kv : list (Z * Z)) : list tparam := map (fun p => (fst p, vappend (snd p))) kv.
+
+(* the shape before the repair: max_udp_payload_size (Chrome: 1472) was not recorded, and absent
+   parameters were recorded as 0 instead of their defaults (active_connection_id_limit 2,
+   ack_delay_exponent 3, max_ack_delay 25 ms) *)
+Lemma old_record_differs_from_wire :
+  record_list (record_of_old (tparams_of advenf_spec_Chrome_146_IPv4)) =
+    [15728640; 6291456; 6291456; 6291456; 100; 103; 0; 65536; 30000; 0; 0; 0; 0] /\
+  record_list (read_list (tparams_of advenf_spec_Chrome_146_IPv4)) =
+    [15728640; 6291456; 6291456; 6291456; 100; 103; 2; 65536; 30000; 1472; 3; 25; 0].
+Proof. split; reflexivity. Qed.
+
+Lemma new_record_is_wire_all_parrots :
+  Forall (fun kv => record_of (tparams_of kv) = read_list (tparams_of kv) /\
+                    parse (marshal (tparams_of kv)) = Some (tparams_of kv)) advenf_all_specs.
+Proof. unfold advenf_all_specs. repeat constructor; vm_compute; reflexivity. Qed.
+
+(** What the game does NOT let the peer do: DATAGRAM frames above [dgram_cap]. For the Chrome parrots
+    max_datagram_frame_size is 65536 and max_udp_payload_size 1472, the receive buffer 1452: frames of
+    1435..1454 bytes fit what was advertised, but a packet carrying one exceeds the receive buffer and
+    is dropped before any frame is looked at -- no error (so outside "never a locally generated
+    error"), and no delivery either. *)
+Lemma dgram_cap_narrowing :
+  let a := advertised advenf_spec_Chrome_146_IPv4 in
+  (l_dgram a, l_udp a, dgram_cap a) = (65536, 1472, 1434) /\
+  play a (enforced_spec a default_config) [EvDgram 1434] = Fine /\
+  play a (enforced_spec a default_config) [EvDgram 1435] = NonConformant.
+Proof. repeat split. Qed.
